@@ -34,7 +34,7 @@ ASSUMPTIONS = [
     "ids < 2**24 so float32 fields hold them exactly",
 ]
 REQUIRED_COUNTERS = ["content_checks", "sample_checks", "handed_out_rechecks"]
-CASE_TIMEOUT_S = 120
+CASE_TIMEOUT_S = 1500
 
 OBS_KINDS = ["vector", "image", "dict", "tuple", "scalar"]
 AGENTS = ["agent_0", "agent_1", "other_0"]
@@ -355,6 +355,9 @@ def _run_multi(case, rec: Recorder):
     ops = []
     reuse_changed = 0
 
+    key_rng = np.random.default_rng(case["seed"] + 17)
+    shuffle_keys = bool(case["seed"] % 2)
+
     def build(ids, vect):
         state, action, reward, nstate, done = {}, {}, {}, {}, {}
         for ai, ag in enumerate(AGENTS):
@@ -367,7 +370,17 @@ def _run_multi(case, rec: Recorder):
                 o, no = _unbatch(o), _unbatch(no)
                 a, r, d = a[0], float(r[0]), bool(d[0])
             state[ag], action[ag], reward[ag], nstate[ag], done[ag] = o, a, r, no, d
-        return state, action, reward, nstate, done
+        fields = [state, action, reward, nstate, done]
+        if shuffle_keys:
+            # dicts are keyed by agent id: the key order of any field dict must not matter
+            out = []
+            for f in fields:
+                order = list(f.keys())
+                key_rng.shuffle(order)
+                out.append({k: f[k] for k in order})
+            rec.hit("ma_adds_with_shuffled_key_order")
+            return tuple(out)
+        return tuple(fields)
 
     def decode(sample, n, where):
         st, ac, rw, ns, dn = sample
